@@ -45,7 +45,12 @@ class C02(PropBase):
         for t in gen.root_types(view, rng, cfg, rng.randint(1, 4)):
             if rng.random() < 0.08:
                 t = {"k": rng.choice(["bytes", "bytearray"])}
-            pool.append((t, [gen.gen_value(rng, t, lk, cfg) for _ in range(rng.randint(1, 2))]))
+            vals = [gen.gen_value(rng, t, lk, cfg) for _ in range(rng.randint(1, 2))]
+            if "twin" in sw:
+                # values that compare (and hash) equal to one already in the pool but are written
+                # differently: Decimal exponents, equal instants at another offset, 0.0 / -0.0
+                vals += [tw for tw in (hist.value_twin(rng, v, numeric=False) for v in list(vals)) if tw is not None]
+            pool.append((t, vals))
         steps = []
         codecs = []
         n = rng.randint(1, 12 if tier == "quick" else 30)
